@@ -7,6 +7,8 @@
 From Coq Require Import List Arith String.
 From Coq Require Import Lia.
 Require Import P.ParseModel P.ParseGrammar P.ParseProof P.ParsePrintModel P.ParsePrint P.ParseDecl P.ParseDeclGrammar P.ParseDeclProof P.ParseInterp P.ParseInterpProof P.ParseUsed P.ParseUsedProof P.ParseHeader P.ParseHeaderProof P.ParseBody P.ParseBodyProof.
+From Coq Require ZArith Permutation.
+Require R.DModel3 R.DProofs4 Inst.DeriveInst G.GlueAll G.DeclShape.
 Theorem parse_complete : forall t rest, wf t -> stop rest -> next_type (S (depth t)) (lex t ++ rest) = Ok (Some (embed t)) rest.
 Proof. exact ParseProof.parse_complete. Qed.
 (* what the templates consume of an `Option<X>` field: the base name and the wrapped type *)
@@ -232,6 +234,16 @@ Proof.
   - destruct (ParseHeaderProof.struct_impl_headers_good dt dl M1 M2 fuel c gs d W) as [H _]. exact H.
   - intros p f Hp Hf Hm. exact (ParseHeaderProof.mentioned_params_declared dt dl fuel d p f W Hp Hf Hm).
 Qed.
+(* (i) C17 x C01, "the result obeys C01": the macro's front end assigns every declaration a SHAPE of the universe the derive-level theorems
+   quantify over (G/DeclShape.v: the attribute readings and the recurse / collection / Option case analysis that select the templates;
+   nested types looked up among the module's derive items). Whatever shape a parsed declaration gets, the round-trip theorem of C01 holds
+   of it. That shape_of is the shape the real macro acts on is the tie: the declarations of the derive-level workload are parsed by
+   /repo's parser and by the model, shape_of must return the shape the workload was generated from, and the behaviour of the real
+   expansion on that workload is compared with the derive model at that shape (checks C01 - C06, C13, C15). *)
+Theorem declared_type_obeys_C01 : forall fuel (e: DeclShape.env) (d: data) (sh: DModel3.shape), DeclShape.shape_of fuel e d = Some sh ->
+  forall (ko: bool) (iter_order: list (BinNums.Z * DModel3.value) -> list (BinNums.Z * DModel3.value)), (forall m, Permutation.Permutation (iter_order m) m) ->
+  forall a b, DProofs4.wt_s sh a -> DProofs4.wt_s sh b -> DProofs4.R_s true sh a b (GlueAll.Apply iter_order sh a (GlueAll.Diff ko iter_order sh a b)).
+Proof. intros fuel e d sh _ ko io Hp a b Ha Hb. exact (GlueAll.C01_closed ko io Hp sh a b Ha Hb). Qed.
 (* non-vacuity: the example declaration above states four requirements (T: Clone, T: Default, Vec<T>: Clone, Vec<T>: 'a), and its impl header is
    the one rustc sees. The two known gaps of the struct templates as the model shows them: ParseHeaderProof.d21_where_item_not_on_the_enum (finding D21:
    a where-clause item a field type needs is not repeated on the diff enums) and d19_bound_mentions_undeclared (finding D19). *)
@@ -269,3 +281,4 @@ Print Assumptions diff_enum_variants_aligned.
 Print Assumptions variant_names_distinct.
 Print Assumptions plain_payload.
 Print Assumptions struct_expansion_end_to_end.
+Print Assumptions declared_type_obeys_C01.
